@@ -89,13 +89,26 @@ func (inflectFam) Exec(c core.CaseIn, rng *rand.Rand, emit func(cas, conc, obs a
 		law = ic.Kind == "irregular" && ic.Boundary != ""
 	}
 	var out, out2, aloneOut string
+	// history: an answer is asked again as a question; the same question put in a context that was never an answer
+	histOut, freshOut, histOK := "", "", false
 	p := core.Try(func() {
 		out = fn(input)
 		out2 = fn(input)
 		aloneOut = fn(alone)
+		if ic.Kind != "random" {
+			u1, u2 := fmt.Sprintf("ha%d ", c.ID), fmt.Sprintf("hb%d ", c.ID)
+			r1 := fn(u1 + alone)
+			if w1, ok := strings.CutPrefix(r1, u1); ok {
+				r2 := fn(r1)      // r1 has been an OUTPUT of this process before it is an input
+				r3 := fn(u2 + w1) // the same word, in a string the process has never seen
+				h, ok1 := strings.CutPrefix(r2, u1)
+				f, ok2 := strings.CutPrefix(r3, u2)
+				histOut, freshOut, histOK = h, f, ok1 && ok2
+			}
+		}
 	})
 	obs := map[string]any{"panicked": p.Panicked, "panic_msg": p.Msg, "panic_site": p.Site, "out": core.CPs(out),
-		"alone_out": core.CPs(aloneOut), "again": out == out2,
+		"alone_out": core.CPs(aloneOut), "again": out == out2, "hist_judged": histOK, "hist_out": core.CPs(histOut), "fresh_out": core.CPs(freshOut),
 		"table_ok": ic.Kind == "random" || ic.Style != "lower" || aloneOut == ic.Expect}
 	emit(nil, map[string]any{"input": core.CPs(input), "lead": core.CPs(lead), "law": law, "alone": core.CPs(alone), "text": input}, obs)
 	return nil
